@@ -1,2 +1,326 @@
-//! Fault-injecting HTTP server for C20 (stub).
-fn main() {}
+//! Fault-injecting HTTP/1.1 server for C20 (std::net + libc only).
+//!
+//!     rv-httpd <script.json>
+//!
+//! Binds 127.0.0.1:0, prints the chosen port on the first stdout line, then
+//! applies the script to every accepted connection (one thread each).
+//!
+//! Script (JSON object):
+//!   "status":    HTTP status (default 200)
+//!   "body_file": path of the body to serve (default: empty body)
+//!   "log":       path of the request log (default: stderr). One line per event:
+//!                  "REQ <request line>"        request head fully read
+//!                  "SENT <n>"                  n body bytes written, now stalling / closing
+//!                  "DONE"                      response finished as scripted
+//!   "mode":      one of
+//!       "complete"              headers (honest Content-Length) + whole body
+//!       "chunked_complete"      Transfer-Encoding: chunked, whole body + terminator
+//!       "cut_after"             Content-Length = full length, "k" body bytes, then close
+//!       "chunked_cut_after"     chunked, cut after "k" body bytes (mid-chunk, no terminator)
+//!       "header_cut"            only the first "k" bytes of the header block, then close
+//!       "stall_before_headers"  read the request, send nothing, wait for the client to go away
+//!       "stall_mid_body"        headers + "k" body bytes, then wait for the client to go away
+//!       "status_only"           status line + headers + body_file (if any), Content-Length honest
+//!   "k":         byte count for the modes above
+//!   "close":     "fin" (default) | "rst" (SO_LINGER 0 => RST) for the cut modes
+//!   "location":  value of a Location header (3xx)
+//!   "stall_cap_ms": upper bound for a stall (default 15000)
+//!
+//! A truncated body is always detectable by the client (Content-Length or
+//! chunked framing); a close-delimited 200 is never produced.
+
+use serde_json::Value as J;
+use std::io::{Read, Write};
+use std::net::{TcpListener, TcpStream};
+use std::os::unix::io::AsRawFd;
+use std::sync::{Arc, Mutex};
+use std::time::{Duration, Instant};
+
+struct Script {
+    status: u16,
+    body: Vec<u8>,
+    mode: String,
+    k: usize,
+    rst: bool,
+    location: Option<String>,
+    stall_cap: Duration,
+    log: Mutex<Option<std::fs::File>>,
+}
+
+impl Script {
+    fn log(&self, line: &str) {
+        let mut g = self.log.lock().unwrap();
+        match g.as_mut() {
+            Some(f) => {
+                let _ = writeln!(f, "{}", line);
+                let _ = f.flush();
+            }
+            None => eprintln!("{}", line),
+        }
+    }
+}
+
+fn reason(status: u16) -> &'static str {
+    match status {
+        200 => "OK",
+        204 => "No Content",
+        301 => "Moved Permanently",
+        302 => "Found",
+        304 => "Not Modified",
+        400 => "Bad Request",
+        403 => "Forbidden",
+        404 => "Not Found",
+        429 => "Too Many Requests",
+        500 => "Internal Server Error",
+        502 => "Bad Gateway",
+        503 => "Service Unavailable",
+        _ => "Status",
+    }
+}
+
+/// read until the blank line ending the request head; returns the request line
+fn read_request(s: &mut TcpStream) -> Option<String> {
+    let mut buf = Vec::new();
+    let mut tmp = [0u8; 1024];
+    let _ = s.set_read_timeout(Some(Duration::from_secs(15)));
+    loop {
+        match s.read(&mut tmp) {
+            Ok(0) => return None,
+            Ok(n) => {
+                buf.extend_from_slice(&tmp[..n]);
+                if buf.windows(4).any(|w| w == b"\r\n\r\n") {
+                    break;
+                }
+                if buf.len() > 65536 {
+                    return None;
+                }
+            }
+            Err(_) => return None,
+        }
+    }
+    let text = String::from_utf8_lossy(&buf);
+    Some(text.lines().next().unwrap_or("").to_string())
+}
+
+/// block until the peer closes / resets or the cap expires
+fn wait_for_peer(s: &mut TcpStream, cap: Duration) {
+    let end = Instant::now() + cap;
+    let _ = s.set_read_timeout(Some(Duration::from_millis(100)));
+    let mut tmp = [0u8; 256];
+    while Instant::now() < end {
+        match s.read(&mut tmp) {
+            Ok(0) => return,
+            Ok(_) => {}
+            Err(e)
+                if e.kind() == std::io::ErrorKind::WouldBlock
+                    || e.kind() == std::io::ErrorKind::TimedOut => {}
+            Err(_) => return,
+        }
+    }
+}
+
+fn close_with(s: TcpStream, rst: bool) {
+    if rst {
+        let l = libc::linger {
+            l_onoff: 1,
+            l_linger: 0,
+        };
+        unsafe {
+            libc::setsockopt(
+                s.as_raw_fd(),
+                libc::SOL_SOCKET,
+                libc::SO_LINGER,
+                &l as *const _ as *const libc::c_void,
+                std::mem::size_of::<libc::linger>() as libc::socklen_t,
+            );
+        }
+        drop(s); // close() with linger 0 => RST
+    } else {
+        let _ = s.shutdown(std::net::Shutdown::Write);
+        drop(s);
+    }
+}
+
+/// write in pieces so that the client sees several reads
+fn write_paced(s: &mut TcpStream, data: &[u8]) -> std::io::Result<()> {
+    for piece in data.chunks(8192) {
+        s.write_all(piece)?;
+        s.flush()?;
+    }
+    Ok(())
+}
+
+fn head(sc: &Script, framing: &str) -> Vec<u8> {
+    let mut h = format!("HTTP/1.1 {} {}\r\n", sc.status, reason(sc.status));
+    h.push_str("Server: rv-httpd\r\n");
+    h.push_str("Content-Type: application/json\r\n");
+    if let Some(l) = &sc.location {
+        h.push_str(&format!("Location: {}\r\n", l));
+    }
+    h.push_str(framing);
+    h.push_str("Connection: close\r\n\r\n");
+    h.into_bytes()
+}
+
+fn chunked(body: &[u8], upto: usize, terminate: bool) -> Vec<u8> {
+    // chunks of 4096 bytes; the encoding of the first `upto` body bytes, cut
+    // in the middle of a chunk when `upto` is not a chunk boundary
+    let mut out = Vec::new();
+    let mut sent = 0usize;
+    for chunk in body.chunks(4096) {
+        if sent >= upto && !terminate {
+            break;
+        }
+        out.extend_from_slice(format!("{:x}\r\n", chunk.len()).as_bytes());
+        let take = if terminate { chunk.len() } else { chunk.len().min(upto - sent) };
+        out.extend_from_slice(&chunk[..take]);
+        sent += take;
+        if take < chunk.len() {
+            return out; // cut mid-chunk
+        }
+        out.extend_from_slice(b"\r\n");
+    }
+    if terminate {
+        out.extend_from_slice(b"0\r\n\r\n");
+    }
+    out
+}
+
+fn serve(sc: &Script, mut s: TcpStream) {
+    let _ = s.set_nodelay(true);
+    let req = match read_request(&mut s) {
+        Some(r) => r,
+        None => {
+            sc.log("REQ <incomplete>");
+            return;
+        }
+    };
+    sc.log(&format!("REQ {}", req));
+    let len = sc.body.len();
+    let cl = format!("Content-Length: {}\r\n", len);
+    let te = "Transfer-Encoding: chunked\r\n";
+    let k = sc.k.min(len);
+    match sc.mode.as_str() {
+        "complete" | "status_only" => {
+            let _ = s.write_all(&head(sc, &cl));
+            let _ = write_paced(&mut s, &sc.body);
+            sc.log("DONE");
+            // let the client read everything before the socket goes away
+            let _ = s.shutdown(std::net::Shutdown::Write);
+            wait_for_peer(&mut s, Duration::from_secs(5));
+        }
+        "chunked_complete" => {
+            let _ = s.write_all(&head(sc, te));
+            let _ = write_paced(&mut s, &chunked(&sc.body, len, true));
+            sc.log("DONE");
+            let _ = s.shutdown(std::net::Shutdown::Write);
+            wait_for_peer(&mut s, Duration::from_secs(5));
+        }
+        "cut_after" => {
+            let _ = s.write_all(&head(sc, &cl));
+            let _ = write_paced(&mut s, &sc.body[..k]);
+            sc.log(&format!("SENT {}", k));
+            close_with(s, sc.rst);
+            sc.log("DONE");
+        }
+        "chunked_cut_after" => {
+            let _ = s.write_all(&head(sc, te));
+            let _ = write_paced(&mut s, &chunked(&sc.body, k, false));
+            sc.log(&format!("SENT {}", k));
+            close_with(s, sc.rst);
+            sc.log("DONE");
+        }
+        "header_cut" => {
+            let h = head(sc, &cl);
+            let n = sc.k.min(h.len().saturating_sub(1));
+            let _ = s.write_all(&h[..n]);
+            sc.log("SENT 0");
+            close_with(s, sc.rst);
+            sc.log("DONE");
+        }
+        "stall_before_headers" => {
+            sc.log("SENT 0");
+            wait_for_peer(&mut s, sc.stall_cap);
+            sc.log("DONE");
+        }
+        "stall_mid_body" => {
+            let _ = s.write_all(&head(sc, &cl));
+            let _ = write_paced(&mut s, &sc.body[..k]);
+            sc.log(&format!("SENT {}", k));
+            wait_for_peer(&mut s, sc.stall_cap);
+            sc.log("DONE");
+        }
+        other => {
+            sc.log(&format!("ERR unknown mode {}", other));
+        }
+    }
+}
+
+fn main() {
+    // never outlive the harness
+    unsafe {
+        libc::prctl(libc::PR_SET_PDEATHSIG, libc::SIGKILL);
+    }
+    let path = match std::env::args().nth(1) {
+        Some(p) => p,
+        None => {
+            eprintln!("usage: rv-httpd <script.json>");
+            std::process::exit(2);
+        }
+    };
+    let text = std::fs::read_to_string(&path).unwrap_or_else(|e| {
+        eprintln!("rv-httpd: cannot read {}: {}", path, e);
+        std::process::exit(2);
+    });
+    let v: J = serde_json::from_str(&text).unwrap_or_else(|e| {
+        eprintln!("rv-httpd: bad script: {}", e);
+        std::process::exit(2);
+    });
+    let body = match v["body_file"].as_str() {
+        Some(p) => std::fs::read(p).unwrap_or_else(|e| {
+            eprintln!("rv-httpd: cannot read body {}: {}", p, e);
+            std::process::exit(2);
+        }),
+        None => Vec::new(),
+    };
+    let log = v["log"].as_str().map(|p| {
+        std::fs::OpenOptions::new()
+            .create(true)
+            .append(true)
+            .open(p)
+            .unwrap_or_else(|e| {
+                eprintln!("rv-httpd: cannot open log {}: {}", p, e);
+                std::process::exit(2);
+            })
+    });
+    let sc = Arc::new(Script {
+        status: v["status"].as_u64().unwrap_or(200) as u16,
+        body,
+        mode: v["mode"].as_str().unwrap_or("complete").to_string(),
+        k: v["k"].as_u64().unwrap_or(0) as usize,
+        rst: v["close"].as_str() == Some("rst"),
+        location: v["location"].as_str().map(|s| s.to_string()),
+        stall_cap: Duration::from_millis(v["stall_cap_ms"].as_u64().unwrap_or(15_000)),
+        log: Mutex::new(log),
+    });
+    let listener = TcpListener::bind("127.0.0.1:0").unwrap_or_else(|e| {
+        eprintln!("rv-httpd: bind: {}", e);
+        std::process::exit(2);
+    });
+    let port = listener.local_addr().map(|a| a.port()).unwrap_or(0);
+    {
+        let out = std::io::stdout();
+        let mut out = out.lock();
+        let _ = writeln!(out, "{}", port);
+        let _ = out.flush();
+    }
+    for conn in listener.incoming() {
+        match conn {
+            Ok(s) => {
+                let sc = sc.clone();
+                std::thread::spawn(move || serve(&sc, s));
+            }
+            Err(_) => {}
+        }
+    }
+}
